@@ -162,6 +162,22 @@ def gen(seed, tier):
         if rng.random() < 0.12:
             kw['ttl'] = rng.choice([1, 5, 60, 120])
         refill = rng.random() < 0.25
+        cheap_first = rng.random() < 0.1
+        if cheap_first:
+            # the same group (or an earlier one on the same client) is first priced with a caller-chosen gas price below the default
+            # (documented `minimal_nanotez_per_gas_unit`, e.g. for a sandbox) ...
+            if rng.random() < 0.5:
+                steps.append({'op': 'fill', 'g': g, 'kw': {'minimal_nanotez_per_gas_unit': rng.choice([0, 1, 50])}})
+                if rng.random() < 0.5:
+                    steps.append({'op': 'sign', 'g': g})
+                    steps.append({'op': 'inject', 'g': g})
+                    steps.append({'op': 'new', 'g': g, 'contents': specs, 'via': via, 'sim_plan': plan})  # ... and built afresh for the real network
+                else:
+                    # ... and then filled again with the defaults before anything is injected
+                    steps.append({'op': 'fill', 'g': g, 'from': 'base'})  # (a refill of the *filled* group keeps its fee: that fee is the caller's)
+                    steps.append({'op': 'sign', 'g': g})
+                    steps.append({'op': 'inject', 'g': g})
+                    continue
         if refill:
             # the group is filled/autofilled first (a preview, or the deprecated operation_group flow) and autofilled again later,
             # when the simulation reports a different consumption: the fee must follow the second simulation
@@ -242,6 +258,12 @@ def oracle(world, info):
         world.bump(world.probes, 'internal_results')
     if 1000 * fee >= need_nanotez:
         return None
+    mnpg = (g.get('fill_kw') or {}).get('minimal_nanotez_per_gas_unit')
+    if (mnpg is not None and mnpg < 100) or g.get('priced_below_default'):
+        # the caller priced this very group below the default on purpose (a sandbox): not a fee "chosen by the client"
+        world.judged -= 1
+        world.bump(world.probes, 'group_priced_below_default_on_purpose')
+        return 'fees_too_low'
     nb = '1' if n == 1 else ('2-3' if n <= 3 else ('4-16' if n <= 16 else '17+'))
     reserve = 'default' if (g.get('fill_kw') or {}).get('gas_reserve') is None else 'custom'
     if g.get('fills', 0) > 1:
